@@ -7,6 +7,16 @@ pub(super) fn number_infix(idx: u32) -> String {
     format!("r{idx:0>5}")
 }
 
+// the index that follows idx; an error (rather than a panic or a wrap-around to 0) if the numbers are used up
+pub(super) fn next_index(idx: u32) -> Result<u32, std::io::Error> {
+    idx.checked_add(1).ok_or_else(|| {
+        std::io::Error::new(
+            std::io::ErrorKind::Other,
+            "the index numbers for rotated log files are exhausted",
+        )
+    })
+}
+
 pub(super) fn index_for_rcurrent(
     config: &FileLogWriterConfig,
     o_index_for_rcurrent: Option<u32>,
@@ -16,10 +26,14 @@ pub(super) fn index_for_rcurrent(
     // according to the filesystem
     let mut index_for_rcurrent = match o_index_for_rcurrent {
         Some(idx) => idx,
-        None => get_highest_index(&config.file_spec)?.map_or(0, |idx| idx + 1),
+        None => match get_highest_index(&config.file_spec)? {
+            None => 0,
+            Some(idx) => next_index(idx)?,
+        },
     };
 
     if rotate_rcurrent {
+        let next_index_for_rcurrent = next_index(index_for_rcurrent)?;
         #[cfg(flexi_logger_verif)]
         crate::verif_hooks::fs_point(
             crate::verif_hooks::FsOp::Rename,
@@ -32,7 +46,7 @@ pub(super) fn index_for_rcurrent(
                 .as_pathbuf(Some(&number_infix(index_for_rcurrent))),
         ) {
             Ok(()) => {
-                index_for_rcurrent += 1;
+                index_for_rcurrent = next_index_for_rcurrent;
             }
             Err(e) => {
                 if e.kind() != std::io::ErrorKind::NotFound {
